@@ -123,8 +123,8 @@ PROPS = {
     'C14': {
         'correspondence': CORR_L1,
         'coq': ['theories/Props/C14.vo', 'theories/Inst/C14_now.vo'],
-        'profiles': [prof('drop', (60, 15), (1500, 60)), prof('sync', (40, 10), (800, 40)), prof('fsync', (40, 10), (800, 40)), prof('pipedrop', (30, 10), (400, 40), extra=['--max-steps', '30000'])],
-        'monitors': ['C14', 'C05', 'C01'], 'liveness': False, 'panics': True,
+        'profiles': [prof('drop', (60, 15), (1500, 60)), prof('sync', (40, 10), (800, 40)), prof('fsync', (100, 20), (1500, 60)), prof('pipedrop', (30, 10), (400, 40), extra=['--max-steps', '30000'])],
+        'monitors': ['C14', 'C05', 'C01', 'C08', 'C02'], 'liveness': False, 'panics': True,
         'trusted_base': L1_TRUST + ['memory as ghost state: the model speaks about WHEN closures, values and job storage are used, not about Rust-level aliasing or layout'],
         'assumptions': ['PARTIAL BY NATURE: proves the lifetime protocol the unsafe sites rely on (erased sync jobs never outlive their call, closures run at most once, nothing runs after the free operation); absence of undefined behaviour outside the protocol is not provable here; canary payloads (dead flag, drop counter, wrong-object check, concurrent-modification canary) are checked in every profile; no AddressSanitizer build is part of the check'],
     },
